@@ -186,12 +186,7 @@ func runC06(c *kit.Ctx) {
 	c.StartRule("R4", "next start row comes from the answered region", 2)
 	{
 		startRowF := p.Field("", "scanner", "startRow")
-		var regionP *ssa.Parameter
-		for _, pa := range upd.Params {
-			if pa.Name() == "region" {
-				regionP = pa
-			}
-		}
+		regionP := paramOfType(upd, "/hrpc.RegionInfo", 0)
 		n := 0
 		kit.Instrs(upd, func(in ssa.Instruction) {
 			st, ok := in.(*ssa.Store)
